@@ -670,25 +670,44 @@ Section InterpReplay.
   Qed.
 
   (* ---- Custom ---- *)
+  Lemma replays_custom_end r : replays (custom_end r).
+  Proof.
+    unfold custom_end.
+    assert (H : replays (_ <- emit_u (UCustomEnd (match r with Ok _ => 0 | Err _ => 1 end)) ;;
+                 match r with Ok v => _ <- failOnError SCustomFOE ;; ret v | Err e => throw e end)).
+    { apply replays_bind; [apply replays_emit_u|intros _].
+      destruct r; [apply replays_bind; [apply replays_failOnError|intros; apply replays_ret]|apply replays_throw]. }
+    destruct r as [v|[]]; try exact H. apply replays_throw.
+  Qed.
   Lemma replays_custom_handler r : replays (custom_handler LF crun r).
   Proof.
     unfold custom_handler.
-    assert (H : replays (_ <- emit_u (UCustomEnd (match r with Ok _ => 0 | Err _ => 1 end)) ;;
+    assert (H : replays (
+                 t0 <- get_ts ;;
                  c <- cleanup LF crun ;;
                  match c, r with
                  | Some e, Err (XInvalid m) => _ <- (if internal_msg m then mark_dirty else ret tt) ;; throw e
                  | Some e, _ => throw e
                  | None, Ok v => ret (Some v)
-                 | None, Err (XInvalid _) => ret None
+                 | None, Err (XInvalid m) => match failed t0 with Some _ => throw (XInvalid m) | None => ret None end
                  | None, Err e => throw e
                  end)).
-    { apply replays_bind; [apply replays_emit_u|intros _].
+    { apply replays_bind; [apply replays_get_ts|intros t0].
       apply replays_bind; [apply replays_cleanup|intros c].
       destruct c as [e|]; destruct r as [v|e']; try apply replays_throw; try apply replays_ret.
       - destruct e'; try apply replays_throw.
         apply replays_bind; [destruct (internal_msg m); [apply replays_mark_dirty|apply replays_ret]|intros; apply replays_throw].
-      - destruct e'; try apply replays_throw; apply replays_ret. }
+      - destruct e'; try apply replays_throw. destruct (failed t0); [apply replays_throw|apply replays_ret]. }
     destruct r as [v|[]]; try exact H. apply replays_throw.
+  Qed.
+
+  (* the Custom function with its own end-of-function handling: a bad outcome stays bad *)
+  Lemma body_end_rep (body : M val) : replays body -> replays (try_ body custom_end).
+  Proof.
+    intros Hb s. apply (rep_at_try_care _ _ (fun _ => True)); [apply Hb|apply replays_custom_end| |exact I].
+    intros NG Hg _. exfalso. destruct (not_good_cases _ _ NG) as [E|[m [E Hi]]]; rewrite E in Hg; unfold custom_end in Hg.
+    - cbn in Hg. contradiction.
+    - unfold bind in Hg. cbn in Hg. congruence.
   Qed.
 
   Lemma custom_inner_rep (body : M val) s :
@@ -696,15 +715,16 @@ Section InterpReplay.
   Proof.
     intros Hb Hne. unfold custom_inner in *. apply rep_at_bind; [apply replays_emit_u|intros _ _].
     cbn [emit_u post]. unfold bind at 1 in Hne. cbn [emit_u res post] in Hne.
-    apply (rep_at_try_care _ _ (fun r => r <> Ok None)); [apply Hb|apply replays_custom_handler| |exact Hne].
+    apply (rep_at_try_care _ _ (fun r => r <> Ok None)); [apply body_end_rep; exact Hb|apply replays_custom_handler| |exact Hne].
     intros NG Hg Hc. destruct (not_good_cases _ _ NG) as [E|[m [E Hi]]]; rewrite E in *.
     - cbn in Hg. contradiction.
     - unfold custom_handler in *. unfold bind at 1. unfold bind at 1 in Hg. unfold bind at 1 in Hc.
-      cbn [emit_u res post w] in *. unfold bind at 1. unfold bind at 1 in Hg. unfold bind at 1 in Hc.
+      cbn [get_ts res post w] in *. unfold bind at 1. unfold bind at 1 in Hg. unfold bind at 1 in Hc.
       match goal with |- context [cleanup LF crun ?s0] => set (s1 := s0) in * end.
       destruct (res (cleanup LF crun s1)) as [[e|]|e] eqn:Ec.
       + rewrite Hi. unfold bind at 1. cbn. rewrite !orb_true_r. reflexivity.
-      + cbn in Hc. congruence.
+      + (* a skip raised by rapid itself that is not swallowed stays an internal invalid: not good *)
+        destruct (failed (ts s1)); cbn in Hg, Hc; [congruence|congruence].
       + apply cleanup_err in Ec. subst e. cbn in Hg. contradiction.
   Qed.
 
@@ -738,15 +758,21 @@ Section InterpReplay.
           unfold bind in Hg; cbn in Hg; [contradiction|congruence].
     - intros r wa wa' s1 Hnd Hc. destruct r as [v|e]; [apply replays_ret|].
       destruct e; try apply replays_throw.
+      apply rep_at_bind; [apply replays_get_ts|intros t0 Ht0].
+      cbn [get_ts res post] in Ht0. injection Ht0 as <-.
+      destruct (failed (ts s1)) eqn:Ef; [apply replays_throw|].
       destruct (Nat.eqb (nd wa) 0) eqn:E0.
       + apply Nat.eqb_eq in E0. assert (E0' : nd wa' = 0) by lia. rewrite E0'. cbn [Nat.eqb].
         apply replays_bind; [destruct (internal_msg m); [apply replays_mark_dirty|apply replays_ret]|intros; apply replays_ret].
-      + exfalso. apply Hc. reflexivity.
+      + exfalso. apply Hc. unfold bind. cbn [get_ts res post]. rewrite ?Ef, ?E0. reflexivity.
     - intros NG Hg Hc. destruct (not_good_cases _ _ NG) as [E|[m [E Hi]]]; rewrite E in *.
       + cbn in Hg. contradiction.
-      + destruct (Nat.eqb _ 0).
-        * rewrite Hi. unfold bind. cbn. reflexivity.
-        * exfalso. apply Hc. reflexivity.
+      + unfold bind at 1. unfold bind at 1 in Hg. unfold bind at 1 in Hc. cbn [get_ts res post w] in *.
+        destruct (failed (ts _)).
+        * cbn in Hg. congruence.
+        * destruct (Nat.eqb _ 0).
+          -- rewrite Hi. unfold bind. cbn. reflexivity.
+          -- exfalso. apply Hc. reflexivity.
   Qed.
 
   Lemma group_d_ok_consumes A sa (m : M (A * bool)) s a :
